@@ -802,6 +802,8 @@ impl MediaStreamTrack for SelectorTrack {
             // Register for the switch notification before reading the current track: created
             // inside `select!` (after the read), a `switch_to()` landing in between was missed
             // (`notify_waiters` stores no permit) and recv() stayed on the old track.
+            #[cfg(rustrtc_verif)]
+            crate::verif::sched("sel_create");
             let switched = self.switch_notify.notified();
             #[cfg(rustrtc_verif)]
             crate::verif::sched("sel_read");
